@@ -587,8 +587,9 @@ def transfers(prog, hctx, env):
     out = []
     for c, path, bi, si, t in aggregates_deep(prog, hctx, lambda adt, var: adt.endswith("transfer::v1::MsgTransfer"), env.depth + 1):
         amount, denom = coin_parts(agg_field(t, "token") or ("none",), 0, prog)
+        amount_raw = _coin_parts(agg_field(t, "token") or ("none",), 0, prog)[0]
         out.append({
-            "term": t, "receiver": agg_field(t, "receiver"), "amount": amount, "denom": denom, "sender": agg_field(t, "sender"),
+            "amount_raw": amount_raw, "term": t, "receiver": agg_field(t, "receiver"), "amount": amount, "denom": denom, "sender": agg_field(t, "sender"),
             "channel": agg_field(t, "source_channel"), "port": agg_field(t, "source_port"), "timeout": agg_field(t, "timeout_timestamp"),
             "memo": agg_field(t, "memo"), "path": path, "root_bb": path[0][1] if path else bi, "loc": c.body.loc(bi, si), "ctx": c, "bb": bi,
         })
